@@ -160,7 +160,34 @@ func truncateSample(b json.RawMessage) json.RawMessage {
 	return s
 }
 
+// heartbeat tells the driver that cases are still completing (liveness signal
+// only, never a verdict): the driver kills and re-runs a shard that burns CPU
+// without finishing a case (a rare runtime spin inside testing/synctest bubbles,
+// see notes/C18.md).
+var (
+	hbMu   sync.Mutex
+	hbLast time.Time
+	hbN    int64
+)
+
+func heartbeat() {
+	path := os.Getenv("VERIF_HEARTBEAT")
+	if path == "" {
+		return
+	}
+	hbMu.Lock()
+	defer hbMu.Unlock()
+	hbN++
+	now := time.Now()
+	if now.Sub(hbLast) < 200*time.Millisecond {
+		return
+	}
+	hbLast = now
+	_ = os.WriteFile(path, []byte(fmt.Sprint(hbN)), 0o644)
+}
+
 func (r *recorder) record(pj json.RawMessage, res Result) {
+	heartbeat()
 	r.mu.Lock()
 	defer r.mu.Unlock()
 	r.evals++
